@@ -88,7 +88,7 @@ def run(ctx, rep):
         rep.problem("audit", "an entropy source outside the two seeded numba streams is used by algorithm code", dict(sites=[list(map(str, s)) for s in bad_sites], other=other),
                     "unseeded-entropy-site", False, None, None, "C04_all_sites_seeded")
     # ---------------- optimizers
-    n = ctx.pick(2, 12)
+    n = ctx.pick(5, 30)
     for kind in LT.KINDS:
         for _ in range(n):
             cfg = LT.random_config(ctx.rng, kind, opt_mode="none", iters=ctx.rng.choice([2, 3, 5]))
